@@ -5,7 +5,7 @@
     newcomer's (C13_unsync_admission: [p.*1.*1 = take (length p) (lru_keys s1)]); and the LRU
     order is the recency order of the history: insert, update and successful get move the key
     to the most-recently-used end, nothing else reorders. *)
-From MM Require Import Unsync.UInvDefs Unsync.UInv Unsync.UPolicyDefs Unsync.UPolicy Sync.SInvDefs Sync.SPolicyDefs Sync.SPolicy.
+From MM Require Import Unsync.UInvDefs Unsync.UInv Unsync.UPolicyDefs Unsync.UPolicy Sync.SInvDefs Sync.SPolicyDefs Sync.SPolicy Sync.SRecency.
 
 Theorem C12_unsync_eviction_is_shortest_lru_prefix : forall c s s',
   cfg_ok c -> WF' c s -> small s -> evict_lru_entries c s = Ok s' ->
@@ -103,6 +103,59 @@ Theorem C12_sync_admission_victims_are_lru_prefix : forall c s k ve w s',
   end.
 Proof. exact s_pending_insert_outcome. Qed.
 
+(** concurrent cache, the other half of "least recently used": the order in which maintenance applies
+    the recorded reads and writes IS the LRU order.  An applied hit, and an applied update, of an
+    admitted entry move its key to the most-recently-used end and change nothing else of the order
+    (nor the contents, nor the counters); a recorded miss, or a hit of an entry that is not admitted
+    yet, does not touch the order; and for any number of queued reads the node order afterwards is
+    the fold of "move to the MRU end" over the hits of admitted entries, in queue order. *)
+Theorem C12_sync_applied_hit_moves_to_mru : forall c s k h ve ts s',
+  scfg_ok c -> SInv c s -> s_small s -> pending_hit s k h ve ts ->
+  apply_reads s 1 = Ok s' ->
+  SInv c s' /\ quiescent s' /\
+  s_lru_keys s' = touch k (s_lru_keys s) /\ k ∈ s_lru_keys s /\
+  s_view s' = s_view s /\ s_ws s' = s_ws s /\ s_ec s' = s_ec s /\ s_wo s' = s_wo s /\
+  si_la (get_info s' (ve_info s' ve)) = N.max (si_la (get_info s (ve_info s ve))) ts.
+Proof. exact s_pending_hit_outcome. Qed.
+
+Theorem C12_sync_applied_update_moves_to_mru : forall c s k ve ow nw s',
+  scfg_ok c -> SInv c s -> s_small s -> pending_update c s k ve ow nw ->
+  apply_writes c s 1 = Ok s' ->
+  SInv c s' /\ quiescent s' /\
+  s_lru_keys s' = touch k (s_lru_keys s) /\ k ∈ s_lru_keys s /\
+  s_view s' = s_view s /\ s_ec s' = s_ec s /\
+  s_ws s' + si_weight (get_info s (ve_info s ve)) = s_ws s + nw /\
+  si_weight (get_info s' (ve_info s' ve)) = nw.
+Proof. exact s_pending_update_outcome. Qed.
+
+Theorem C12_sync_applied_miss_keeps_order : forall c s h s',
+  scfg_ok c -> SInv c s -> s_small s -> s_wq s = [] -> s_rq s = [RMiss h] ->
+  apply_reads s 1 = Ok s' ->
+  SInv c s' /\ quiescent s' /\ s_prob s' = s_prob s /\ s_wo s' = s_wo s /\
+  s_view s' = s_view s /\ s_ws s' = s_ws s /\ s_ec s' = s_ec s.
+Proof. exact s_pending_miss_outcome. Qed.
+
+Theorem C12_sync_unadmitted_hit_keeps_order : forall c s h ve ts s',
+  scfg_ok c -> SInv c s -> s_small s -> s_rq s = [RHit h ve ts] ->
+  si_admitted (get_info s (ve_info s ve)) = false ->
+  apply_reads s 1 = Ok s' ->
+  SInv c s' /\ s_rq s' = [] /\ s_wq s' = s_wq s /\ s_prob s' = s_prob s /\ s_wo s' = s_wo s /\
+  s_view s' = s_view s /\ s_ws s' = s_ws s /\ s_ec s' = s_ec s /\
+  si_la (get_info s' (ve_info s' ve)) = N.max (si_la (get_info s (ve_info s ve))) ts.
+Proof. exact s_pending_cold_hit_outcome. Qed.
+
+Theorem C12_sync_applied_reads_recency : forall c s n s',
+  scfg_ok c -> SInv c s -> s_small s -> apply_reads s n = Ok s' ->
+  (s_prob s').*1 = foldl (fun l o => match read_target s o with Some nid => touch_id nid l | None => l end)
+                         (s_prob s).*1 (take n (s_rq s)) /\
+  (forall nid nd, (nid, nd) ∈ s_prob s' <-> (nid, nd) ∈ s_prob s).
+Proof. exact apply_reads_recency. Qed.
+
+Print Assumptions C12_sync_applied_hit_moves_to_mru.
+Print Assumptions C12_sync_applied_update_moves_to_mru.
+Print Assumptions C12_sync_applied_miss_keeps_order.
+Print Assumptions C12_sync_unadmitted_hit_keeps_order.
+Print Assumptions C12_sync_applied_reads_recency.
 Print Assumptions C12_sync_eviction_is_shortest_lru_prefix.
 Print Assumptions C12_sync_admission_victims_are_lru_prefix.
 Print Assumptions C12_unsync_eviction_is_shortest_lru_prefix.
